@@ -138,6 +138,17 @@ def cases(tier, seed):
                                                     "n": n, "neig": neig, "mode": mode, "spectrum": spec,
                                                     "param": param, "dtype": d, "order": order, "batch": "-",
                                                     "plane": 0})
+    # ---- degeneracy tolerances given by the caller, and the backward pass run twice on the retained graph
+    for n in (2, 3):
+        for mode in ("lowest", "uppest"):
+            for opkind in ("dense", "mfree"):
+                for M in (0, 1):
+                    for d in ("f64", "c128"):
+                        for order in (1, 2):
+                            out.append({"fam": "symeig", "method": "custom_exacteig", "bck": "exactsolve", "M": M,
+                                        "opkind": opkind, "n": n, "neig": 2, "mode": mode, "spectrum": "near",
+                                        "param": "P1", "dtype": d, "order": order, "batch": "-", "plane": 0,
+                                        "degtol": 1})
     # ---- batch
     for n in ([3] if not thorough else [3, 5]):
         for batch in ("2|", "|2"):
@@ -442,6 +453,9 @@ def run_symeig(cfg):
         Aop = herm_op(cfg["opkind"], A)
         Mop = herm_op(cfg["opkind"], M) if useM else None
         kw = {} if cfg["method"] == "exacteig" else {"bck_options": dict(BCK[cfg["bck"]])}
+        if cfg.get("degtol") and "bck_options" in kw:
+            # the caller declares the spectrum non-degenerate (tolerances far below the gap of 2e-7)
+            kw["bck_options"].update({"degen_atol": 1e-12, "degen_rtol": 1e-12})
         torch.manual_seed(4242)
         return symeig(Aop, neig=neig, mode=mode, M=Mop, method=cfg["method"], **kw, **_fwd_opts(cfg, neig, n))
 
@@ -455,7 +469,8 @@ def run_symeig(cfg):
         return {"viol": [V("forward-shape-mismatch", {"E": list(E.shape), "X": list(X.shape)}, **at0)],
                 "obs": {"shape": list(X.shape)}, "status": "violation"}
     lib = losses_from_pairs(E, X, off)
-    ref = losses_contour(leaves)
+    # (a contour of radius 1e-7 is too ill-conditioned a reference for the "near" spectrum: dense eigh is used)
+    ref = losses_eigh(leaves) if cfg["spectrum"] == "near" else losses_contour(leaves)
     ref2 = losses_eigh(leaves) if cfg["spectrum"] == "sep" else None
 
     # conditioning: distance of every cluster used by an eigenvector loss to the rest of the spectrum
@@ -475,6 +490,10 @@ def run_symeig(cfg):
             continue
         ob = call(_grads, lib[lname], leaves, order, dirs)
         nexec += 1
+        if cfg.get("degtol") and ob.exc is None:
+            # the same backward pass once more on the retained graph: the options of the call hold for every pass
+            ob = call(_grads, lib[lname], leaves, order, dirs)
+            nexec += 1
         if ob.exc is not None:
             viol.append(V("backward-exception:%s" % ob.exc_sig, {"exc": repr(ob.exc)[:300]}, loss=lname, **at0))
             obs[lname] = "exc:" + ob.exc_sig[:60]
